@@ -28,7 +28,7 @@ def main():
         crate = meta.get("crate") or "passage-protocol"
         name = "%s-r%sm%s" % (prop, rnd, k)
         if "--no-confirm" in a:
-            conf = json.load(open(os.path.join(seedtool.VERIF, "seeded", name, "meta.json"))).get("confirmed_by_me", {})
+            conf = json.load(open(os.path.join(os.environ.get("SEED_STORE", os.path.join(seedtool.VERIF, "seeded")), name, "meta.json"))).get("confirmed_by_me", {})
             ok = True
         else:
             rf = meta.get("rustflags")
